@@ -24,6 +24,7 @@ import (
 	"time"
 
 	"github.com/free5gc/go-upf/internal/verif/evid"
+	"github.com/free5gc/go-upf/internal/verif/vsched"
 )
 
 type Event struct {
@@ -147,7 +148,7 @@ func WorkerMain(args []string) {
 	if !ok {
 		evid.Infra("seqx worker: nothing registered for %s", args[0])
 	}
-	spec := mk(args[1], args[2])
+	spec := MakeSpec(mk, args[1], args[2])
 	in := bufio.NewReaderSize(os.Stdin, 1<<20)
 	out := bufio.NewWriterSize(os.Stdout, 1<<20)
 	send := func(r reply) {
@@ -169,6 +170,49 @@ func WorkerMain(args []string) {
 			return
 		}
 	}
+}
+
+// DescSuffix marks the scenario variant in which the implementation's maps are iterated in descending key order
+// (the repository's range-over-map statements are rewritten to a harness-chosen order in every flavour).
+const DescSuffix = "@desc"
+
+// MakeSpec builds the spec of a scenario name that may carry DescSuffix and selects the map order for this process.
+func MakeSpec(mk func(tier, scenario string) Spec, tier, scenario string) Spec {
+	base := strings.TrimSuffix(scenario, DescSuffix)
+	spec := mk(tier, base)
+	spec.Scenario = scenario
+	SetOrder(scenario)
+	return spec
+}
+
+// SetOrder selects the map iteration order the scenario name asks for.
+func SetOrder(scenario string) {
+	if strings.HasSuffix(scenario, DescSuffix) {
+		vsched.PlainOrder.Store(1)
+	} else {
+		vsched.PlainOrder.Store(0)
+	}
+}
+
+// ExploreOrders explores the scenario with ascending map iteration order and, if desc, once more with descending
+// order (scenario name + DescSuffix); both are merged into total. The returned stats are the ascending run's,
+// with DepthDone the smaller of the two.
+func ExploreOrders(run *evid.Run, spec Spec, tier string, smp *evid.Samples, total *Stats, desc bool) Stats {
+	SetOrder(spec.Scenario)
+	st := Explore(run, spec, tier, smp)
+	Merge(run, spec.Scenario, st, total)
+	if desc {
+		s2 := spec
+		s2.Scenario = spec.Scenario + DescSuffix
+		SetOrder(s2.Scenario)
+		st2 := Explore(run, s2, tier, smp)
+		SetOrder(spec.Scenario)
+		Merge(run, s2.Scenario, st2, total)
+		if st2.DepthDone < st.DepthDone {
+			st.DepthDone = st2.DepthDone
+		}
+	}
+	return st
 }
 
 func replay(spec Spec, hist []Event) (Instance, StepResult) {
@@ -382,11 +426,11 @@ func Explore(run *evid.Run, spec Spec, tier string, smp *evid.Samples) Stats {
 	defer func() { confirmW.stop() }()
 
 	// confirm re-executes a violating history from its replay: the same signature must come back.
-	// Executions are deterministic up to Go map iteration order inside the implementation (e.g. the order
-	// in which a reset node's sessions are released); a violation that needs a particular order may
-	// therefore not reproduce every time. It is reported if it reproduces at least once in 5 (then 25 more)
-	// re-executions, with the ratio in the report; if it never reproduces it is counted as an
-	// unconfirmed observation in the evidence and not reported.
+	// Executions are deterministic (the repository's range-over-map statements iterate in the order the
+	// scenario selects), so the signature is expected every time; the 5 (+25) re-executions guard against
+	// any source of nondeterminism that is still not owned: a violation is reported if it reproduces at
+	// least once, with the ratio in the report; if it never reproduces it is counted as an unconfirmed
+	// observation in the evidence and not reported.
 	confirm := func(h []Event, v Viol) (bool, string) {
 		hits, runs := 0, 0
 		for round := 0; round < 2 && hits == 0; round++ {
@@ -723,7 +767,7 @@ func ReplayMain(path string, times int) int {
 	if tier == "" {
 		tier = "quick"
 	}
-	spec := mk(tier, v.Scenario)
+	spec := MakeSpec(mk, tier, v.Scenario)
 	hits := 0
 	for i := 0; i < times; i++ {
 		inst := spec.New()
@@ -864,4 +908,60 @@ func ExploreTargets(run *evid.Run, spec Spec, tier string, targets [][]Event, sm
 	st.Outcomes = len(outcomes)
 	st.DepthDone = 1
 	return st
+}
+
+// DivergeMain (debugging aid): executes the history of a file {property, scenario, replay:{tier, history}} n times on
+// fresh instances and prints how the state keys / observations of the last step differ between executions.
+func DivergeMain(path string, times int) int {
+	b, err := os.ReadFile(path)
+	if err != nil {
+		evid.Infra("%v", err)
+	}
+	var v struct {
+		Property string `json:"property"`
+		Scenario string `json:"scenario"`
+		Replay   struct {
+			Tier    string  `json:"tier"`
+			History []Event `json:"history"`
+		} `json:"replay"`
+	}
+	if err := json.Unmarshal(b, &v); err != nil {
+		evid.Infra("bad file: %v", err)
+	}
+	mk, ok := registry[v.Property]
+	if !ok {
+		evid.Infra("no spec for %s", v.Property)
+	}
+	spec := MakeSpec(mk, v.Replay.Tier, v.Scenario)
+	seen := map[string]int{}
+	var first string
+	for i := 0; i < times; i++ {
+		inst := spec.New()
+		var last StepResult
+		for _, e := range v.Replay.History {
+			last = inst.Apply(e)
+		}
+		all := "OBS " + last.Obs + "\nKEY " + inst.Key()
+		inst.Close()
+		seen[all]++
+		if first == "" {
+			first = all
+		} else if all != first && seen[all] == 1 {
+			fa, fb := strings.Split(first, "\n"), strings.Split(all, "\n")
+			for k := 0; k < len(fa) || k < len(fb); k++ {
+				var x, y string
+				if k < len(fa) {
+					x = fa[k]
+				}
+				if k < len(fb) {
+					y = fb[k]
+				}
+				if x != y {
+					fmt.Printf("line %d:\n  A: %s\n  B: %s\n", k, x, y)
+				}
+			}
+		}
+	}
+	fmt.Printf("%d executions, %d distinct (obs,key)\n", times, len(seen))
+	return 0
 }
